@@ -753,6 +753,9 @@ def curated(seed):
         ufl.inv(t)[0, 0], ufl.cofac(t)[1, 0], ufl.dev(t)[0, 0], ufl.skew(t)[0, 1], ufl.perp(v)[0], ufl.elem_mult(v, w)[0], ufl.cross(ufl.as_vector([f, g, h]), ufl.as_vector([g, h, f]))[0],
         ufl.as_vector([f, g])[i] * v[i], ufl.as_vector([g, f])[i] * v[i], ufl.as_tensor(t[i, j], (j, i))[0, 1],
     ]
+    # literals whose printed forms differ only in zeros after the point (a "natural" comparison of digit runs reads 05 as 5)
+    for lit_a, lit_b in [(0.5, 0.05), (1.5, 1.05), (2.1, 2.01), (0.25, 0.025), (0.001, 0.0001), (-0.5, -0.05), (10.5, 10.05), (1.5 + 0.5j, 1.5 + 0.05j)]:
+        ops += [lit_a * f, lit_b * f, f + lit_a, f + lit_b, ufl.sin(lit_a * g), ufl.sin(lit_b * g)]
     # operators with a varying number of operands: one operand list a strict prefix of the other
     l2, l3, l4 = ufl.as_vector([f, g]), ufl.as_vector([f, g, h]), ufl.as_vector([f, g, h, f])
     m2, m3 = ufl.as_tensor([v, w]), ufl.as_tensor([v, w, v2])
